@@ -4,7 +4,8 @@ Require Import ZArith List Bool Lia.
 Require Import AV.BigInt.Model AV.BigInt.Facts AV.BigInt.FactsCmp AV.BigInt.FactsAdd AV.BigInt.FactsMul
                AV.BigInt.FactsBits AV.BigInt.FactsDivS AV.BigInt.FactsStr AV.BigInt.FactsScan
                AV.BigInt.FactsShift AV.BigInt.FactsPow AV.BigInt.FactsConv AV.BigInt.FactsDiv5
-               AV.BigInt.FactsGcd AV.BigInt.FactsMod AV.BigInt.FactsPowMod.
+               AV.BigInt.FactsGcd AV.BigInt.FactsMod AV.BigInt.FactsPowMod AV.BigInt.FactsShiftRem
+               AV.BigInt.FactsRepr AV.BigInt.FactsAll.
 Import ListNotations.
 Local Open Scope Z_scope.
 
@@ -72,3 +73,41 @@ Example ex_powmod_unit : fiBIntPowerMod (Imm 5) (Imm 0) (Imm 1) = Some (Imm 0).
 Proof. reflexivity. Qed.
 Example ex_powmod_thm : exists r, fiBIntPowerMod exD exB exA = Some r /\ val r = Z.rem (val exD ^ val exB) (val exA) /\ norm r.
 Proof. apply FactsPowMod.powermod_exact; [exact exD_norm | exact exB_norm | exact exA_norm | discriminate | discriminate]. Qed.
+
+(* shiftrem_exact: hypotheses norm b, 0 <= val b, shiftrem_defined b n = true (and shiftrem_normal for the normal form) *)
+Example ex_shiftrem_hyps : shiftrem_defined exB 40 = true /\ shiftrem_normal exB 40 = true /\ 0 <= val exB.
+Proof. repeat split. discriminate. Qed.
+Example ex_shiftrem : bintShiftRem exB 40 = Imm 1. Proof. reflexivity. Qed.
+Example ex_shiftrem_thm : val (bintShiftRem (Sto false [4294967295; 4294967295; 4294967295]) 70) = (2 ^ 96 - 1) mod 2 ^ 70.
+Proof. vm_compute. reflexivity. Qed.
+(* "lowest n bits, in normal form" is REFUTED outside those hypotheses, on C-defined inputs (kept visible; the
+   check reproduces these classes on the real code under the keys shiftrem:result-not-normalised and
+   shiftrem:negative-operand; the other four keyed classes are outside what C defines, hence outside the model):
+   - the result keeps high-order zero places: value 5 comes back allocated with three places *)
+Example shiftrem_denormal_refuted :
+  shiftrem_defined (Sto false [5; 0; 64]) 70 = true /\
+  bintShiftRem (Sto false [5; 0; 64]) 70 = Sto false [5; 0; 0] /\ normb (Sto false [5; 0; 0]) = false.
+Proof. repeat split. Qed.
+(* - a negative allocated number loses its sign (bits of the magnitude), a negative immediate gives two's complement bits *)
+Example shiftrem_negative_operand_refuted :
+  bintShiftRem (Sto true [5; 0; 64]) 3 = Imm 5 /\ bintShiftRem (Imm (-5)) 3 = Imm 3.
+Proof. split; reflexivity. Qed.
+
+(* norm_unique / immed_if_can_repr *)
+Example ex_unique_thm : bintPlus exA exB = bintPlus exB exA.
+Proof. exact (proj1 (results_canonical exA exB exA_norm exB_norm)). Qed.
+Example ex_immed_boundary :
+  xintImmedIfCan (Sto true [4294967295; 1073741823]) = Imm (-4611686018427387903) /\
+  xintImmedIfCan (Sto true [0; 1073741824]) = Sto true [0; 1073741824].
+Proof. split; reflexivity. Qed.
+Example ex_immed_hyps : res_ok [4294967295; 1073741823].
+Proof. split; [repeat constructor; unfold R; lia | cbn; lia]. Qed.
+(* frplacevS_exact / toplacevS_exact / placevS_roundtrip: an odd number of 16-bit places *)
+Example ex_u16_hyps : u16ok [65535; 0; 1; 65535; 32768].
+Proof. repeat constructor; lia. Qed.
+Example ex_frplacevs_odd : bintFrPlacevS true [65535; 0; 1; 65535; 32768] = Sto true [65535; 4294901761; 32768].
+Proof. reflexivity. Qed.
+Example ex_toplacevs_odd : bintToPlacevS (Sto true [65535; 4294901761; 32768]) = [65535; 0; 1; 65535; 32768].
+Proof. reflexivity. Qed.
+Example ex_roundtrip_thm : bintFrPlacevS (bintIsNeg exA) (bintToPlacevS exA) = exA.
+Proof. exact (placevS_roundtrip exA exA_norm). Qed.
